@@ -6,8 +6,59 @@ from . import common, tier_e
 LEVEL = 'other'
 
 
+_LOCALE_SCRIPT = r'''
+import io, sys, json, logging, locale
+logging.disable(logging.CRITICAL)
+from bounded import nbspace, mergespace
+from nbdime.diffing.notebooks import diff_notebooks
+from nbdime.merging.notebooks import decide_notebook_merge
+from nbdime import prettyprint as pp
+src = u"navn = 'bl\u00e5b\u00e6r'\nprint(navn)\n# \u65e5\u672c\u8a9e\n"
+b = nbspace.notebook([nbspace.code_cell(src, [nbspace.out_stream(u"gr\u00f8t\nferdig\n")], 1)])
+l = nbspace.notebook([nbspace.code_cell(src.replace(u"print(navn)", u"print(navn, '\u2713')"), [nbspace.out_stream(u"gr\u00f8t\nferdig \u2713\n")], 2)])
+r = nbspace.notebook([nbspace.code_cell(src + u"# \u00f8l\n", [nbspace.out_stream(u"gr\u00f8t\nferdig\n")], 1)])
+out = []
+for use_git in (True, False):
+    for use_diff in (True, False):
+        for color in (True, False):
+            cfg = dict(out=io.StringIO(), use_git=use_git, use_diff=use_diff, use_color=color)
+            for name, call in (('notebook diff', lambda c: pp.pretty_print_notebook_diff('a', 'b', b, diff_notebooks(b, l), c)),
+                               ('merge decisions', lambda c: pp.pretty_print_merge_decisions(b, decide_notebook_merge(b, l, r, mergespace.args_for('mergetool')), c)),
+                               ('notebook', lambda c: pp.pretty_print_notebook(l, c))):
+                c = pp.PrettyPrintConfig(**cfg)
+                try:
+                    call(c)
+                except Exception as exc:
+                    out.append('%s (use_git=%s use_diff=%s colour=%s): %s: %s' % (name, use_git, use_diff, color, type(exc).__name__, str(exc)[:120]))
+print(json.dumps({'encoding': locale.getpreferredencoding(False), 'failures': out}))
+'''
+
+
+def locale_part(res):
+    """rendering non-ASCII notebooks in a process whose locale is not UTF-8 (LC_ALL=C, UTF-8 mode off)"""
+    import json, os, subprocess, sys
+    env = dict(os.environ, LC_ALL='C', LANG='C', PYTHONUTF8='0', PYTHONCOERCECLOCALE='0', PYTHONIOENCODING='utf-8',
+               PYTHONPATH='%s:%s:%s/stubs' % (common.HERE, common.REPO, common.HERE), PYTHONDONTWRITEBYTECODE='1')
+    p = subprocess.run([sys.executable, '-c', _LOCALE_SCRIPT], capture_output=True, text=True, encoding='utf-8', env=env, cwd=common.HERE, timeout=600)
+    if p.returncode != 0 or not p.stdout.strip():
+        raise common.CheckerDefect('locale scenario did not run: %s' % (p.stderr[-400:],))
+    info = json.loads(p.stdout.strip().splitlines()[-1])
+    res.evaluations += 24
+    res.coverage['locale_scenario'] = {'preferred_encoding_in_child': info['encoding'], 'renderings': 24}
+    if info['failures']:
+        res.violation('rendering non-ASCII text fails in a process with locale encoding %s: %s' % (info['encoding'], info['failures'][0]),
+                      {'replay_kind': 'call', 'module': 'checks.c16', 'function': 'replay_locale', 'args': [], 'failures': info['failures'][:5]})
+
+
+def replay_locale():
+    r = common.Result('C16', 'quick', 0, LEVEL)
+    locale_part(r)
+    return [v['what'] for v in r.violations]
+
+
 def run(res):
     from contracts import kit_e
+    locale_part(res)
     sites = kit_e.esc_literal_obligations(common.REPO)
     if not sites:
         raise common.CheckerDefect('no ESC literal obligations generated')
